@@ -20,6 +20,20 @@ goroutine puts the result into `waitResults`), `recv` (a select takes the
 `waitResults` branch: Close returns), `fire` (a select takes the timer branch:
 escalate). When both branches of a select are ready either may be taken.
 
+Standard error forwarding (`NewStream` with a receiver): a goroutine copies
+from the process' standard-error pipe until end-of-file — which needs *every*
+holder of the pipe's write end to be gone, the agent and any descendant that
+inherited it — or until the parent's read end is closed. It is **not** part of
+what Close waits for: Close's goroutine calls `process.Wait()` directly, and
+`Wait` closes the parent's ends of the pipes once the process has exited.
+The model carries the holder set (`alive` for the agent, `helper` for a
+descendant that outlives it arbitrarily), the parent's read end (`stderrOpen`)
+and the copier (`copyDone`) with steps `helperExit` and `copyEnd`, so that
+"Close's return does not depend on holders other than the agent" is a theorem
+about the model rather than an omission. Descendants holding standard output
+or input have no counterpart in Close at all (nothing there reads or waits on
+them); they are exercised by the correspondence check only.
+
 Assumed and therefore not exhibited by the model: timers expire exactly at
 their deadline and the goroutines react before time passes (guards of
 `tick`), i.e. timer accuracy and scheduler promptness; that the process exits
@@ -36,12 +50,15 @@ structure Behaviour where
   onTerm : Option Nat
   /-- time from SIGKILL to exit. -/
   killLatency : Nat
+  /-- the agent has a descendant that inherited its standard error and outlives it. -/
+  holder : Bool := false
   deriving DecidableEq, Repr
 
 structure Params where
   delay : Nat   -- terminationDelay
   g1 : Nat      -- grace after closing standard input
   g2 : Nat      -- grace after SIGTERM
+  recv : Bool := false  -- NewStream was given a standard error receiver
   deriving DecidableEq, Repr
 
 inductive Stage | wait | stdin | term | kill
@@ -59,6 +76,12 @@ structure State where
   waited : Bool
   /-- Close has returned (in this stage, at this time). -/
   returned : Option (Stage × Nat)
+  /-- a descendant of the agent still holds the write end of the standard-error pipe. -/
+  helper : Bool := false
+  /-- the parent's read end of the standard-error pipe is open. -/
+  stderrOpen : Bool := false
+  /-- the forwarding goroutine has finished (vacuously so without a receiver). -/
+  copyDone : Bool := true
   deriving DecidableEq, Repr
 
 def omin (a : Option Nat) (b : Option Nat) : Option Nat :=
@@ -69,9 +92,10 @@ def omin (a : Option Nat) (b : Option Nat) : Option Nat :=
 
 def init (p : Params) (b : Behaviour) : State :=
   { now := 0, stage := .wait, deadline := some p.delay, exitAt := b.self,
-    alive := true, waited := false, returned := none }
+    alive := true, waited := false, returned := none,
+    helper := b.holder, stderrOpen := p.recv, copyDone := !p.recv }
 
-inductive Action | tick (d : Nat) | procExit | recv | fire
+inductive Action | tick (d : Nat) | procExit | recv | fire | helperExit | copyEnd
   deriving DecidableEq, Repr
 
 /-- Time may advance by `d` without passing the timer's deadline. -/
@@ -92,7 +116,9 @@ def step (p : Params) (b : Behaviour) (s : State) : Action → Option State
     if timerOk s d && exitOk s d then some { s with now := s.now + d } else none
   | .procExit =>
     match s.alive, s.exitAt with
-    | true, some e => if e ≤ s.now then some { s with alive := false, waited := true } else none
+    | true, some e =>
+      -- `process.Wait()` returns: it also closes the parent's ends of the pipes
+      if e ≤ s.now then some { s with alive := false, waited := true, stderrOpen := false } else none
     | _, _ => none
   | .recv =>
     if s.waited ∧ s.returned.isNone then some { s with returned := some (s.stage, s.now) } else none
@@ -117,6 +143,15 @@ def step (p : Params) (b : Behaviour) (s : State) : Action → Option State
         | .kill => none
       else none
     | none => none
+
+  | .helperExit =>
+    -- the descendant goes away, at any time whatsoever
+    if s.helper then some { s with helper := false } else none
+  | .copyEnd =>
+    -- io.Copy returns: end-of-file (no holder left) or read end closed
+    if ¬ s.copyDone ∧ ((s.alive = false ∧ s.helper = false) ∨ s.stderrOpen = false) then
+      some { s with copyDone := true }
+    else none
 
 def run (p : Params) (b : Behaviour) (s : State) : List Action → Option State
   | [] => some s
